@@ -56,10 +56,11 @@ def assignments(root: ast.AST, target: str) -> List[Tuple[ast.AST, Optional[ast.
     return out
 
 
-def expand_locals(expr: ast.AST, fn: ast.AST, depth: int = 4, _seen: Optional[Set[str]] = None) -> List[ast.AST]:
+def expand_locals(expr: ast.AST, fn: ast.AST, depth: int = 4, _seen: Optional[Set[str]] = None,
+                  stop: Sequence[str] = ()) -> List[ast.AST]:
     """the expression plus, transitively, the values assigned in `fn` to the local names it mentions
     (a flow-insensitive def-use closure: 'what can this expression be made of')"""
-    seen = _seen if _seen is not None else set()
+    seen = _seen if _seen is not None else set(stop)
     out = [expr]
     if depth <= 0:
         return out
